@@ -329,7 +329,12 @@ def push (ext : Ext) : B → SVal → R B
   | b, .f64 x => ctx b.ann (pushScalar ext b (.f64 x))
   | b, .char x => ctx b.ann (pushScalar ext b (.char x))
   | b, .str x => ctx b.ann (pushScalar ext b (.str x))
-  | b, .unitStruct x => ctx b.ann (pushScalar ext b (.unitStruct x))
+  -- repo fix ae2fc46: the default `serialize_unit_struct` forwards to `serialize_unit` (`NullBuilder` keeps its own
+  -- override, which does what its `serialize_none` does; `UnknownVariantBuilder` refuses under the method's own name)
+  | b, .unitStruct _ =>
+    match b with
+    | .unknownVariant _ => ctx b.ann (fail "Unknown variant does not support serialize_unit_struct")
+    | _ => pushNone b
 
 /-- list elements: `push_seq_elements(1)` then the element into the child -/
 def pushElems (ext : Ext) (large : Bool) : B → List Int → SVals → R (B × List Int)
